@@ -341,7 +341,7 @@ func sCaseCoq(c *SCase, o *SObs, mode string) string {
 	return fmt.Sprintf("mkSCase %s %s %s %s %s %d%%N %s%s %s%s %s%s %s %s %s",
 		c.Schema.Coq(), coqJSON(normJSON(c.Value)), coqList(comp), coqList(mat), coqList(fmts), c.Mode,
 		strconv.Itoa(o.Default), "%N", strconv.Itoa(o.Failfast), "%N", strconv.Itoa(o.Multi), "%N",
-		sErrsCoq(o.DefErr), sErrsCoq(o.MultiErrs), coqBool(len(o.PtrBad) == 0))
+		sErrsCoq(o.DefErr), sErrsCoq(o.MultiErrs), coqBool(len(o.PtrBad) == 0 || (len(o.PtrBad) == 1 && o.PtrBad[0] == "uncompilable-pattern")))
 }
 
 // ---- directed cases: every keyword at its boundaries ----
